@@ -405,6 +405,53 @@ Theorem C02_attach_run_exists :
 Proof. exact attach_nonvacuous. Qed.
 Print Assumptions C02_attach_run_exists.
 
+(* ---------------- parent-context cancellation; elapsed time ---------------- *)
+
+(* histories of Close() calls and cancellations of the PARENT context (the bridge context is its child): whatever came before —
+   any number of parent cancellations and earlier Close calls, in any order — once Close is called the connections are closed,
+   and they stay closed under every continuation.  So "either end closes or fails -> closeBridge -> Close" closes the other end
+   also while the server is shutting down. *)
+Theorem C02_close_runs_its_sequence_after_parent_cancel :
+  forall h1 h2 : list cevent, ch_conns_closed (ch_run CloseAlways (h1 ++ EvClose :: h2)) = true.
+Proof. exact close_runs_its_sequence. Qed.
+Print Assumptions C02_close_runs_its_sequence_after_parent_cancel.
+
+(* what HEAD does on a parent cancellation alone: nothing is closed (dispose runs no clean-up on cancellation; the copy loops
+   poll the context only every ContextCheckInterval iterations): the owner still has to call Close *)
+Theorem C02_parent_cancel_alone_closes_nothing :
+  forall n, ch_conns_closed (ch_run CloseAlways (repeat EvParentCancel n)) = false.
+Proof. exact parent_cancel_alone_closes_nothing. Qed.
+Print Assumptions C02_parent_cancel_alone_closes_nothing.
+
+(* refuted: "context already cancelled => the close sequence has run" — after a parent cancellation no history of Close calls
+   ever closes the connections *)
+Theorem C02_skip_close_when_ctx_done_refuted :
+  forall h : list cevent, ch_conns_closed (ch_run SkipWhenCtxDone (EvParentCancel :: h)) = false.
+Proof. exact skip_when_ctx_done_never_closes_refuted. Qed.
+Print Assumptions C02_skip_close_when_ctx_done_refuted.
+
+Theorem C02_close_history_exists :
+  ch_run CloseAlways [EvParentCancel; EvClose; EvParentCancel; EvClose]
+  = {| ch_ctx_done := true; ch_conns_closed := true; ch_close_calls := 2 |}.
+Proof. exact close_history_nonvacuous. Qed.
+Print Assumptions C02_close_history_exists.
+
+(* the relay sets no deadline on a connection a direction still reads (harness obligation `deadline-set-on-live-direction` on
+   the real iocopy.Bidirectional), so delivery of the remaining direction is independent of elapsed time: however many clock
+   ticks fall anywhere in the schedule, all m chunks are delivered once that direction has had m+1 steps *)
+Theorem C02_delivery_independent_of_elapsed_time :
+  forall m (sched : list nat), m + 1 <= count_occ Nat.eq_dec sched 0 ->
+  d_got (fst (drain_run None m sched)) = m /\ nth_error (snd (drain_run None m sched)) 0 = Some (DRespDone false).
+Proof. exact delivery_independent_of_elapsed_time. Qed.
+Print Assumptions C02_delivery_independent_of_elapsed_time.
+
+(* refuted: a drain deadline cuts a remaining direction that pauses longer than the deadline *)
+Theorem C02_drain_deadline_truncates_refuted :
+  exists sched, d_got (fst (drain_run (Some 5) 3 sched)) < 3 /\
+                nth_error (snd (drain_run (Some 5) 3 sched)) 0 = Some (DRespDone true).
+Proof. exact drain_deadline_truncates_refuted. Qed.
+Print Assumptions C02_drain_deadline_truncates_refuted.
+
 (* ---------------- (4) the server forgets the tunnel ---------------- *)
 
 (* registry_forgets: any number of startSourceBridge callers, any tunnel ids (duplicates included), every interleaving
